@@ -9,6 +9,7 @@ package main
 import (
 	"math"
 	"regexp/syntax"
+	"strconv"
 )
 
 type rxMatcher struct {
@@ -244,6 +245,22 @@ func init() {
 	}
 	f2("Remainder", math.Remainder)
 	f2("Mod", math.Mod)
+	// strconv.ParseFloat on a concrete string: the host's result (the real
+	// function is a pure function of its input; its bit-level arithmetic is
+	// outside the encoder)
+	reg("strconv.ParseFloat", func(fr *frame, args []Value) Value {
+		e := fr.e
+		str, ok := concStr(args[0].(Str))
+		if !ok {
+			unsupported("strconv.ParseFloat on a symbolic string")
+		}
+		bits := int(e.concretize(args[1].(*Term), "ParseFloat bit size"))
+		v, err := strconv.ParseFloat(str, bits)
+		if err != nil {
+			return Tuple{Float{v}, e.newErrorString(e.strConst(err.Error()))}
+		}
+		return Tuple{Float{v}, Iface{}}
+	})
 	reg("math.Float64bits", func(fr *frame, args []Value) Value {
 		x, ok := args[0].(Float)
 		if !ok {
